@@ -29,6 +29,7 @@ func cmdVC(args []string) int {
 		return 2
 	}
 	P.analyzeGlobals()
+	initKnown(verifDir())
 	C := LoadContracts(P, specDir())
 	for _, e := range C.Errors {
 		fmt.Println("CONTRACT ERROR:", e)
@@ -43,7 +44,7 @@ func cmdVC(args []string) int {
 			rc = 2
 			continue
 		}
-		vc := NewVC(P, C, fn, VCOpts{Safety: *safety, MaxInline: *inl, Canary: true, InlineBudget: *budget})
+		vc := NewVC(P, C, fn, VCOpts{Safety: *safety, MaxInline: *inl, Canary: true, Cover: true, InlineBudget: *budget})
 		vc.Generate()
 		if *show {
 			fmt.Println(vc.sc.Incremental())
